@@ -22,7 +22,7 @@ TraceFile == IOEnv.ORB_TRACE
 Trace == ndJsonDeserialize(TraceFile)
 
 \* which property predicates this run evaluates (driver passes a comma-less list via env)
-PropIds == {"C01", "C02", "C03", "C04", "C05", "C06", "C08", "C09", "C10", "C11", "C12", "C17", "C18"}
+PropIds == {"C01", "C02", "C03", "C04", "C05", "C06", "C14", "C08", "C09", "C10", "C11", "C12", "C17", "C18"}
 
 -----------------------------------------------------------------------------
 (* JSON -> specification values                                            *)
@@ -138,7 +138,7 @@ PropHolds(c, S) ==
   CASE c = "C01" -> Prop_C01(S) [] c = "C02" -> Prop_C02(S) [] c = "C03" -> Prop_C03(S)
     [] c = "C04" -> Prop_C04(S) [] c = "C05" -> Prop_C05(S) [] c = "C06" -> Prop_C06(S) [] c = "C08" -> Prop_C08(S)
     [] c = "C09" -> Prop_C09(S) [] c = "C10" -> Prop_C10(S) [] c = "C11" -> Prop_C11(S)
-    [] c = "C12" -> Prop_C12(S) [] c = "C17" -> Prop_C17(S) [] c = "C18" -> Prop_C18(S)
+    [] c = "C14" -> Prop_C14(S) [] c = "C12" -> Prop_C12(S) [] c = "C17" -> Prop_C17(S) [] c = "C18" -> Prop_C18(S)
     [] OTHER -> TRUE
 
 \* antecedent flags: on which properties this step is a non-trivial evaluation
@@ -152,6 +152,7 @@ Ante(S) ==
        [] c = "C06" -> (HasActions(S) /\ S.hasTrace) \/ (IsOrbiterPacket(S) /\ S.in.mk = "PAYLOAD" /\ ParseOK(S.in) /\ RepeatsAction(S.in))
        [] c = "C08" -> (HasPayload(S) /\ (S.pre.pProto # {} \/ S.pre.pCC # {})) \/ IsPauseMsg(S)
        [] c = "C09" -> (HasPayload(S) /\ S.pre.pAct # {}) \/ (IsAdmin(S) /\ S.in.rpc \in ActionRpcs)
+       [] c = "C14" -> IsRecv(S) /\ S.in.mk \in {"MUT", "RANDOM", "RAW"}
        [] c = "C10" -> IsAdmin(S)
        [] c = "C11" -> IsOrbiterPacket(S) /\ S.ctl.clean.run /\ \E d \in Denom : S.pre.bal["orb"][d] > 0
        [] c = "C17" -> S.in.t = "reimport"
